@@ -635,6 +635,11 @@ class IH5Group(IH5InnerNode):
     def copy(self, source: CopySource, dest: CopyDest, **kwargs):
         src_node = self[source] if isinstance(source, str) else source
         name: str = kwargs.pop("name", src_node.name.split("/")[-1])
+        # list the source nodes before anything is created for the destination
+        # (missing parent groups of the destination could be located inside the source)
+        kwargs["_src_children"] = _h5_list_children(
+            src_node, kwargs.get("shallow", False)
+        )
         dst_name: str
         if isinstance(dest, str):
             # if dest is a path, ignore inferred/passed name
@@ -698,6 +703,17 @@ class H5Type(str, Enum):
         return f"{type(self).__name__}.{self.value}"
 
 
+def _h5_list_children(source_node, shallow: bool = False):
+    """List (relative name, node) pairs to be copied for a source group (None for datasets)."""
+    if isinstance(source_node, H5DatasetLike):
+        return None
+    if shallow:  # only immediate children
+        return list(source_node.items())
+    ret: List[Any] = []  # recursive
+    source_node.visititems(lambda name, node: ret.append((name, node)))
+    return ret
+
+
 def h5_copy_from_to(
     source_node: Union[H5DatasetLike, H5GroupLike],
     target_group: H5GroupLike,
@@ -714,6 +730,7 @@ def h5_copy_from_to(
     """
     without_attrs: bool = kwargs.pop("without_attrs", False)
     shallow: bool = kwargs.pop("shallow", False)
+    src_children = kwargs.pop("_src_children", None)
     for arg in ["expand_soft", "expand_external", "expand_refs"]:
         if not kwargs.pop(arg, True):
             raise ValueError("IH5 does not support keeping references!")
@@ -737,11 +754,8 @@ def h5_copy_from_to(
     else:
         # collect the source nodes first: the target may be located inside of the
         # source, and the copy must not walk into what it is creating itself
-        src_children = []
-        if shallow:  # only immediate children
-            src_children = list(source_node.items())
-        else:  # recursive copy
-            source_node.visititems(lambda name, node: src_children.append((name, node)))
+        if src_children is None:
+            src_children = _h5_list_children(source_node, shallow)
 
         trg_root = target_group.create_group(target_path)
         copy_attrs(source_node, trg_root)  # copy source node attributes
